@@ -42,7 +42,7 @@ type c16Params struct {
 func (c16) ID() string    { return "C16" }
 func (c16) Level() string { return "exploration" }
 func (c16) Rule() string {
-	return "after a clean handshake the sender emits N records with unique payloads; the simulated network holds them back and then delivers a seeded sequence: any order, duplicates, replays of much older records, gaps, and forgeries interleaved at any point (flipped ciphertext / tag byte, older / next / far epoch, rewritten sequence number, garbage behind a plausible header, changed version, length field beyond the datagram or 0xffff, datagram shorter than a header, changed content type); ReplayWindow 0 (default), 1..31 (below the floor of 32) and 32..160; on the Read path a forged record may share its datagram with the genuine record behind it; GCM and CBC; receiver through ReadFrom, Read, or both in turn; the records may start just below 2^16, 2^24, 2^32, 2^40 or 2^47 of the 48-bit sequence number (hook VerifSetWriteSeq); some sequences are built around the window edge (newest-W, newest-W+1, ...). Oracle: set-based reference model - every delivered payload was sent, none twice, forgeries never delivered and without effect on later acceptance, and every genuine first arrival that is newer than all accepted or within max(32, min(configured,64)) behind the newest IS delivered. Each case also compares the window object (hook) with the same model on a seeded number sequence. Also: 10-byte Reads (a payload has 24 bytes) alternating with ReadFrom, the Read stream stitched back together; the server's listener configuration may carry another ReplayWindow than the configuration its GetConfigForClient hands out (the latter is in force). Forgeries include reflection: three records the receiver itself sent (held back by the network) are delivered to it. distinct = distinct (parameters, delivery sequence); non-trivial = at least one duplicate or forgery was delivered to a live receiver"
+	return "after a clean handshake the sender emits N records with unique payloads; the simulated network holds them back and then delivers a seeded sequence: any order, duplicates, replays of much older records, gaps, and forgeries interleaved at any point (flipped ciphertext / tag byte, older / next / far epoch, rewritten sequence number, garbage behind a plausible header, changed version, length field beyond the datagram or 0xffff, datagram shorter than a header, changed content type); ReplayWindow 0 (default), 1..31 (below the floor of 32) and 32..160; on the Read path a forged record may share its datagram with the genuine record behind it; GCM and CBC; receiver through ReadFrom, Read, or both in turn; the records may start just below 2^16, 2^24, 2^32, 2^40 or 2^47 of the 48-bit sequence number (hook VerifSetWriteSeq); some sequences are built around the window edge (newest-W, newest-W+1, ...). Oracle: set-based reference model - every delivered payload was sent, none twice, forgeries never delivered and without effect on later acceptance, and every genuine first arrival that is newer than all accepted or within max(32, min(configured,64)) behind the newest IS delivered. Each case also compares the window object (hook) with the same model on a seeded number sequence. Also: 10-byte Reads (a payload has 24 bytes) alternating with ReadFrom, the Read stream stitched back together; the server's listener configuration may carry another ReplayWindow than the configuration its GetConfigForClient hands out (the latter is in force). Forgeries include reflection: three records the receiver itself sent (held back by the network) are delivered to it. A quarter of the cases run on a resumed connection; forgery kind 11 there is a record protected under the keys that an all-zero master secret and the public hello randoms give. distinct = distinct (parameters, delivery sequence); non-trivial = at least one duplicate or forgery was delivered to a live receiver"
 }
 func (c16) Components() (real, stub []string) {
 	return []string{"dtlcp client+server (instrumented): record authentication, epoch handling, replay window, ReadFrom and Read paths"},
